@@ -22,6 +22,7 @@ class Check:
         self.assumptions = []
         self.extra = {}
         self.functions_analysed = set()
+        self.vacuous = []
 
     # -- recording ------------------------------------------------------------
     def ob(self, rule, where, ok, detail, key=None):
@@ -53,7 +54,8 @@ class Check:
         """Vacuity guard: a rule matching fewer instances than confirmed by
         hand is an analysis error."""
         if measured < minimum:
-            raise AnalysisError('rule {} matched {} instance(s), at least {} were confirmed by hand '
+            # reported at the end: a violation found elsewhere is not masked by this
+            self.vacuous.append('rule {} matched {} instance(s), at least {} were confirmed by hand '
                                 '-- refusing a vacuous pass'.format(rule, measured, minimum))
 
 
@@ -146,4 +148,8 @@ def finish(check, out=print):
     out('SUMMARY property={} tier={} obligations={} discharged={} known={} violations={} functions={} wall={}s'.format(
         check.prop, check.tier, nob, ndis, len(seen_known), nviol, len(check.functions_analysed),
         evidence['wall_s']))
+    if status == 0 and check.vacuous:
+        for msg in check.vacuous:
+            out('ANALYSIS-ERROR property={} {}'.format(check.prop, msg))
+        return 2
     return status
